@@ -75,6 +75,9 @@ func NewRunnerBig(r *rand.Rand, os model.OptSet, nkeys int, record, bigKeys bool
 	if bigKeys {
 		ru.Keys.Inflate(r, 1500, 7500)
 	}
+	if _, ok := os.O.Comparer.(model.Canonicalizer); ok {
+		ru.Keys.AddPadded(r)
+	}
 	ru.Stor.SetKeepLogs(true)
 	ru.Stor.OnLog = func(line string) {
 		if strings.HasPrefix(line, "memdb@flush committed") {
@@ -143,7 +146,7 @@ func (ru *Runner) memComp() uint32 {
 
 func (ru *Runner) noteWrite(k []byte) {
 	ru.Used[string(k)] = true
-	ru.memAt[string(k)] = ru.memComp()
+	ru.memAt[string(model.CanonKey(ru.OS.O.Comparer, k))] = ru.memComp()
 }
 
 // valueFor builds the unique value of write (op, sub).
@@ -253,7 +256,7 @@ func (ru *Runner) CheckGet(k []byte) error {
 	if herr != nil || has != live {
 		return ru.mismatch(fmt.Sprintf("Has=%v but model live=%v", has, live), k, nil, want, herr)
 	}
-	if at, ok := ru.memAt[string(k)]; ok && ru.memComp() >= at+2 {
+	if at, ok := ru.memAt[string(model.CanonKey(ru.OS.O.Comparer, k))]; ok && ru.memComp() >= at+2 {
 		ru.Stats["reads_from_tables"]++
 	} else if ok {
 		ru.Stats["reads_maybe_from_buffers"]++
